@@ -477,6 +477,12 @@ GROUPS["bv_div"] = G("bv_div", BV_VAL_PRELUDE + ["value_div.rs", "bvf_div.rs", "
     BV_BASE + stub(["bv.len", "bv.zeros", "bv.resize", "bv.set", "bv.is_zero", "bv.significant_bits", "bv.clone", "bv.from_bv", "bv.partial_cmp_bv"]) +
     [("stub", "bv.shl_assign", {"T": "usize"}), ("stub", "bv.shr_assign", {"T": "u32"}), ("stub", "bv.addsub_bv", ARITH_D["sub"])] + verify(["bv.div_rem_bv"]))
 GROUPS["bv_div"]["features"] = "#![feature(allocator_api)]"
+GROUPS["bvd_conv_self"] = G("bvd_conv_self", BVD_PRELUDE + ["box_clone.rs"], BVD_BASE + stub(BVD_CORE) + verify(["bvd.from_bvd"]))
+GROUPS["bvd_conv_self"]["features"] = "#![feature(allocator_api)]"
+GROUPS["bvd_div"] = G("bvd_div", BVD_VAL_PRELUDE + ["value_div.rs", "bvd_div.rs", "cmp_std.rs", "bvd_div2.rs"],
+    BVD_BASE + stub(BVD_CORE) + stub(["bvd.is_zero", "bvd.significant_bits", "bvd.resize", "bvd.clone", "bvd.from_bvd", "bvd.partial_cmp_bvd"]) +
+    [("stub", "bvd.shl_assign", {"T": "usize"}), ("stub", "bvd.shr_assign", {"T": "u32"}), ("stub", "bvd.addsub_bvd", ARITH_D["sub"])] + verify(["bvd.div_rem_bvd"]))
+GROUPS["bvd_div"]["features"] = "#![feature(allocator_api)]"
 GROUPS["div_theory"] = dict(name="div_theory", prelude=lambda ctx: WORD_PRELUDE + VALUE_PRELUDE + ["value_div.rs"], items=lambda ctx: [("decl", "decl.Bit")])
 GROUPS["mul_theory"] = dict(name="mul_theory", prelude=lambda ctx: WORD_PRELUDE + VALUE_PRELUDE + ["value_mul.rs"], items=lambda ctx: [("decl", "decl.Bit")])
 
@@ -710,7 +716,7 @@ _EDIT_Q = jobs("bvf_core", ["u64"]) + jobs("bvf_slice", WQ) + [("bvd_core", U64)
 PROPS["C03"] = {"quick": _ARITH_Q + BVD_ARITH_JOBS + _BITOPS_Q + _BV_Q + _EDIT_Q, "thorough": PROPS["C01"]["thorough"] + PROPS["C04"]["thorough"]}
 PROPS["C20"] = {"quick": _ARITH_Q + BVD_ARITH_JOBS + _BITOPS_Q + bv_ops_jobs(["u64"], ("or",), BITOPS) + bv_ops_jobs(["u64"], ("add", "sub"), ARITH_D) + bv_shift_jobs(["u64"]) + dshift_ref(["usize"]) + [("bvd_misc", U64)] + FORMS_Q, "thorough": PROPS["C01"]["thorough"] + PROPS["C04"]["thorough"] + PROPS["C05"]["thorough"] + FORMS_T}
 def div_jobs(pairs, ws):
-    return ([("div_theory", {"I": "u64"})] + [("bvf_div", pair(i, j)) for (i, j) in pairs] + [("bvf_div_bvd", dctx(i)) for i in ws] + [("bvd_div_bvf", pair("u64", j)) for j in ws] + [("bv_div", U64)])
+    return ([("div_theory", {"I": "u64"})] + [("bvf_div", pair(i, j)) for (i, j) in pairs] + [("bvf_div_bvd", dctx(i)) for i in ws] + [("bvd_div_bvf", pair("u64", j)) for j in ws] + [("bv_div", U64), ("bvd_div", U64), ("bvd_conv_self", U64)])
 PROPS["C02"] = {"quick": BVD_ARITH_JOBS[1:] + div_jobs(PQ, WQ), "thorough": BVD_ARITH_JOBS + div_jobs(PT, W4)}
 
 # -------------------------------------------------------------------------------------------------
@@ -775,7 +781,7 @@ MANIFEST_TEXT["C02"] = dict(
           "The loop invariant is the classical one (divisor = b*2^i, rem < b*2^(i+1), a = q*b + rem, quotient bits <= i clear) over exact integer equations; every callee is a verified contract "
           "(is_zero, significant_bits, copy_range, conversions, resize, <<=, >>=, -=, set, partial_cmp) bridged to values by a proved theory (spec/prelude/value_div.rs). "
           "Exploration for the rest: div_rem, /, %, /=, %= against u128 division for nine implementation pairings and native divisors; zero divisors must panic (checked natively)." + DYN_NOTE),
-    note=("Not under contract (second engine only): Bvd / Bvd, Bvd / Bv, Bv / Bvf, Bv / Bvd, Bvf / Bv (same algorithm text with other divisor conversions), the operator forms / % /= %= (forward to div_rem), native-integer divisors. "
+    note=("Bvd / Bvd is verified too. Not under contract (second engine only): Bvd / Bv, Bv / Bvf, Bv / Bvd, Bvf / Bv (same algorithm text with other divisor conversions), the operator forms / % /= %= (forward to div_rem), native-integer divisors. "
           "`rem >= divisor` is rewritten to a helper that is std's default PartialOrd::ge over the verified partial_cmp (R22, T1). A-size: len + 64 <= usize::MAX/2 for Bvd operands. " + TRUST_NOTE))
 MANIFEST_TEXT["C03"] = dict(
     text=("Proof (per operation, inductive over histories): every unit under contract takes a well-formed vector (len <= capacity, every storage bit at or beyond len zero) to a well-formed vector and states its "
